@@ -230,6 +230,9 @@ fn arm_watchdog(prop: &'static str, replays: &str, seed: u64, tool: &str, out: O
                     .set("evaluations", rtcpmon::ctx::GLOBAL_EVALS.load(std::sync::atomic::Ordering::Relaxed).max(1))
                     .set("distinct_nontrivial", rtcpmon::ctx::GLOBAL_DISTINCT.get().map(|d| d.count()).unwrap_or(0))
                     .set("rule", "counters at the moment the run was ended by a hang / abort of the code under test (evaluations in steps of 64)");
+                if let Some(dir) = std::path::Path::new(out).parent() {
+                    let _ = std::fs::create_dir_all(dir);
+                }
                 let _ = std::fs::write(out, j.to_pretty());
             }
             println!("HANG property={prop} subject={subject} replay={path}");
@@ -258,6 +261,9 @@ fn arm_watchdog(prop: &'static str, replays: &str, seed: u64, tool: &str, out: O
                     .set("evaluations", rtcpmon::ctx::GLOBAL_EVALS.load(std::sync::atomic::Ordering::Relaxed).max(1))
                     .set("distinct_nontrivial", rtcpmon::ctx::GLOBAL_DISTINCT.get().map(|d| d.count()).unwrap_or(0))
                     .set("rule", "counters at the moment the run was ended by a hang / abort of the code under test (evaluations in steps of 64)");
+                if let Some(dir) = std::path::Path::new(out).parent() {
+                    let _ = std::fs::create_dir_all(dir);
+                }
                 let _ = std::fs::write(out, j.to_pretty());
             }
             println!("ABORT property={prop} subject={subject} replay={path}");
